@@ -140,5 +140,24 @@ def main(tier):
             i = re.search(r"\bid=(\S+)", c).group(1)
             chk.violation("validity-mismatch", why, {"stream": name, "case": c[:6000], "built": {k: v for k, v in meta[i][0].items()}, "impl": [l[:1500] for l in il]})
     chk.extra["input_distribution"] = dict(sorted(dist.items()))
+    # "valid under the same flags" through the real command line: the flag set is given by NAME (--modify-flags), the spend is valid exactly
+    # under that set (uncompressed keys in P2WSH need -WITNESS_PUBKEYTYPE, a non-null multisig dummy needs -NULLDUMMY, a high-S signature -LOW_S)
+    import cli, vlib, os
+    binary = os.path.join(vlib.build("plain"), "btcdeb")
+    rng = chk.rng
+    cst = chk.streams.setdefault("command-line-flags", {"cases": 0, "diffs": 0, "known": 0})
+    for kind, enc, mod in (("p2wsh", "uncompressed", "-WITNESS_PUBKEYTYPE"), ("p2sh-p2wsh", "uncompressed", "-WITNESS_PUBKEYTYPE"), ("multisig", "nonnulldummy", "-NULLDUMMY"),
+                           ("p2pkh", "highs", "-LOW_S"), ("p2wpkh", "uncompressed", "-WITNESS_PUBKEYTYPE")):
+        c = S.build(rng, kind, enc=enc, ht=1)
+        for fopt, want in ((["--modify-flags=" + mod], True), ([], False)):
+            argv = fopt + ["--tx=" + c["spend"], "--txin=" + c["fund"]]
+            r = cli.run(binary, argv, stdin_tty=True)
+            cst["cases"] += 1; chk.evaluations += 1
+            ok = r["rc"] == 0 and (r["stdout"] or b"").strip() == b"01"
+            if ok != want or r["sig"]:
+                cst["diffs"] += 1
+                if cst["diffs"] <= 3:
+                    chk.violation("validity-cli", "a %s spend (%s) run with %s is %s" % (kind, enc, fopt or "the default flags", "refused although valid under that flag set" if want else "accepted although invalid under that flag set"),
+                                  {"stream": "command-line-flags", "case": ["cli-run"], "binary": "btcdeb", "argv": argv, "stdin_tty": True, "rc": r["rc"], "stdout": (r["stdout"] or b"").decode("latin1")[-200:], "stderr": (r["stderr"] or b"").decode("latin1")[-300:]})
     return chk.finish(RULE, trusted_extra=["tools/gen_spend.py + tools/refcrypto.py: independent digests (legacy, BIP143, BIP341) and signer; validity labels by construction",
                                            "elliptic-curve predicates (ECDSA/Schnorr verify, taproot tweak check) are an oracle of the model, answered by tools/refcrypto.py"])
